@@ -106,6 +106,8 @@ def item_or_raise(x, tag=None):
             except Exception:
                 pass
         return ('r', 'unstuck')
+    if x == 'UNSENDABLE':
+        return threading.Lock()     # cannot even be pickled by the child
     if x == 'UNPICKLABLE':
         return NeedsArgs(1, 2)      # can be sent, cannot be rebuilt by the receiver (constructor needs two arguments)
     y = ('r', x)
